@@ -43,7 +43,7 @@ def check_pins(ctx, pgpy, pins, who):
 
 
 PINS.update({
-    'PGPKey.parse': '3cb1d97b05bb687e', 'PGPKey.__bytearray__': 'cf5c4a72b4df4a15', 'PGPKey.__or__': 'e00a8edb5482499b', 'PGPKey.__copy__': 'd0947399d9c62607',
+    'PGPKey.parse': 'e27a62b6f43bc038', 'PGPKey.__bytearray__': 'cf5c4a72b4df4a15', 'PGPKey.__or__': 'e00a8edb5482499b', 'PGPKey.__copy__': 'd0947399d9c62607',
     'PGPKey.pubkey': '8ca1b2d84e32a4d4', 'PGPUID.__or__': 'ae8d18457c0f6909', 'PGPUID.__copy__': '2a1154b2ea7b17af', 'PGPUID.__lt__': 'f0e5e2eaa2fbafb7',
     'PGPUID.selfsig': 'f5b0a4b25ee24849', 'PGPUID.is_primary': '2717b1134fb7e336', 'PGPSignature.__lt__': '557ce558d85c25f6',
     'PGPSignature.exportable': '28b877b70aaa4ac8', 'PGPSignature.__copy__': '1be2415cd6075ead',
@@ -189,6 +189,9 @@ class World:
             # an unknown-version signature packet / a private-use tag / a SUBKEY packet of unknown version: skipped with the signatures on it
             idb = int(f[2]).to_bytes(2, 'big')
             return (b'\xc2\x03\x05' + idb) if f[1] == '1' else ((b'\xfc\x02' + idb) if int(f[2]) % 2 else (b'\xce\x03\x07' + idb))
+        if f[0] == 'X':
+            # an understood packet that is no part of a key: a Marker packet (as old PGP wrote in front of keyrings) / a literal data packet
+            return b'\xca\x03PGP' if int(f[1]) % 2 else b'\xcb\x08b\x00\x00\x00\x00\x00hi'
         if f[0] == 'OK':
             # a PRIMARY key packet (public / secret) of unknown version: skipped, and so is everything up to the next understood primary key (repair bf7dbf5)
             idb = int(f[1]).to_bytes(2, 'big')
@@ -263,6 +266,14 @@ def gen_blob(rng, thorough=False):
             st['oid'] += 1
             toks.append('O:1:%d' % st['oid'])
 
+    def stray(p):
+        """with probability p: a packet that is no part of a key, with 0..2 signatures grouped with it (orphaned packets)"""
+        if rng.random() < p:
+            st['oid'] += 1
+            toks.append('X:%d' % st['oid']); trust()
+            for _ in range(rng.choice((0, 0, 1, 2))):
+                toks.append(gen_sig(rng, st, issuers, (16, 19, 31, 24, 48), rng.randrange(World.NED), times)); trust(); opaque_sig()
+
     malformed = rng.random()
     unknown_at = rng.randrange(nkeys + 1) if rng.random() < 0.30 else None       # a primary key of unknown version before key #unknown_at / at the end
 
@@ -282,15 +293,20 @@ def gen_blob(rng, thorough=False):
             toks.append('K:0:%d:%d:%d' % (rng.randrange(2), 1 if sl < World.NED else 0, sl)); trust()
             for _ in range(rng.choice((0, 1, 2))):
                 toks.append(gen_sig(rng, st, issuers, (24, 40), rng.randrange(World.NED), times, allow_emb=sl))
-    if malformed < 0.02:
-        toks.append(gen_sig(rng, st, issuers, (16, 31), 0, times))          # leading signature
-    elif malformed < 0.04:
+    stray(0.12)                                                            # in front of everything
+    if malformed < 0.06:
+        for _ in range(rng.choice((1, 1, 2))):
+            toks.append(gen_sig(rng, st, issuers, (16, 31, 19), 0, times))  # leading signature(s)
+        trust()
+    elif malformed < 0.08:
         toks.append('U:1:99')                                              # user id before any key
-    elif malformed < 0.06:
+    elif malformed < 0.10:
         toks.append('K:0:%d:1:%d' % (rng.randrange(2), rng.randrange(World.NED)))   # subkey first
     for ki, kl in enumerate(prim_labels):
+        stray(0.15)                                                        # between the keys (before / after an unknown-version key as well)
         if unknown_at == ki:
             unknown_key()
+            stray(0.3)
         pub = rng.randrange(2)
         toks.append('K:1:%d:1:%d' % (pub, kl)); trust()
         for _ in range(rng.choice((0, 0, 1, 2, 3))):
@@ -298,6 +314,7 @@ def gen_blob(rng, thorough=False):
         for _ in range(rng.choice((0, 1, 1, 2, 3, 4))):
             st['cid'] += 1
             cid = st['cid'] if rng.random() > 0.05 else max(1, st['cid'] - 1)    # occasionally the same user id again
+            stray(0.04)                                                          # between the components of a key
             toks.append('U:%d:%d' % (0 if rng.random() < 0.25 else 1, cid)); trust()
             for _ in range(rng.choice((0, 1, 1, 2, 2, 3, 4))):
                 toks.append(gen_sig(rng, st, issuers, (16, 19, 19, 19, 48, 18, 22), kl, times)); trust(); opaque_sig()
@@ -322,8 +339,10 @@ def gen_blob(rng, thorough=False):
             toks.append('K:0:%d:%d:%d' % (spub, 1 if sl < World.NED else 0, sl)); trust()
             for _ in range(rng.choice((0, 1, 1, 1, 2, 3))):
                 toks.append(gen_sig(rng, st, issuers, (24, 24, 24, 40, 31), kl, times, allow_emb=sl)); trust(); opaque_sig()
+    stray(0.12)                                                            # after the last key
     if unknown_at == nkeys:
         unknown_key()
+        stray(0.3)
     return toks
 
 
@@ -376,6 +395,7 @@ def run_case_(ctx, w, d, toks, suite='packets'):
         warnings.simplefilter('ignore')
         r = outcome(pgpy.PGPKey.from_blob, blob)
     model = d.call('import', *toks)
+    orphan_oracle(ctx, w, toks, r, suite, case)
     if r[0] == 'raise':
         ctx.case(suite, ('err', tuple(toks)), nontrivial=False)
         ctx.expect_eq(suite, 'from_blob outcome vs model import', case, EXC.get(r[1], 'raise:' + r[1]), model)
@@ -414,6 +434,43 @@ def run_case_(ctx, w, d, toks, suite='packets'):
             b = [tops_view(w, pgpy.PGPKey.from_blob(bytes(k))[0]) for k in klist]
             if a != b:
                 ctx.fail(suite, 'concatenated keys are not separated into the same keys', dict(case, got=repr(a)[:300], want=repr(b)[:300]))
+
+
+def without_orphans(toks):
+    """the token sequence without what is no part of a key: leading signatures, and every stray packet with the signatures grouped with it
+    (Trust packets are filtered before grouping, so they do not end a group)"""
+    def sigtok(t):
+        return t.startswith('S:') or t.startswith('O:1:')
+    out, dropping = [], True            # True at the start: leading signatures
+    for t in toks:
+        if t.startswith('X:'):
+            dropping = True
+            continue
+        if dropping and (sigtok(t) or t == 'T'):
+            continue
+        dropping = False
+        out.append(t)
+    return out
+
+
+def orphan_oracle(ctx, w, toks, r, suite, case):
+    """direct oracle (the orphan repair; Props/C14.v C14_stray_packets_do_not_disturb / C14_leading_signatures_ignored on the implementation):
+    marker packets, stray signatures and leading signatures change nothing - every key comes back exactly as from the blob without them"""
+    t2 = without_orphans(toks)
+    if t2 == toks:
+        return
+
+    def view(res):
+        if res[0] == 'raise':
+            return 'ERR:' + res[1]
+        return ' '.join(w.key_s(k) + '|' + w.export_s(k) for k in res[1][1].values()) or 'EMPTY'
+    with warnings.catch_warnings():
+        warnings.simplefilter('ignore')
+        r2 = outcome(w.pgpy.PGPKey.from_blob, b''.join(w.bytes_of(t) for t in t2))
+        a, b = view(r), view(r2)
+    if a != b:
+        ctx.fail(suite, 'packets that are no part of a key (marker packet, stray / leading signatures) change what is read: a key is lost or a component goes to another key',
+                 dict(case, got=a[:300], without_them=b[:300]))
 
 
 def unordered(v):
@@ -484,6 +541,7 @@ def run(ctx):
         regression_repeated_key(ctx, w, d)
         regression_selfsig(ctx, w, d)
         regression_unknown_primary(ctx, w, d)
+        regression_orphans(ctx, w, d)
         from . import c15
         c15.history_keys_for_c14(ctx, n=ctx.n(60, 1000))
     finally:
@@ -510,7 +568,15 @@ CORPUS = [
     ['K:1:1:1:0', 'U:1:1', 'S:2:0:19:100:n:1', 'OK:1', 'S:3:3:31:100:n:0', 'U:1:2', 'S:4:3:19:100:n:1', 'K:0:1:1:4', 'S:5:3:24:100:n:0', 'O:0:2', 'S:6:3:24:100:n:0',
      'U:1:5', 'K:1:1:1:1', 'U:1:3', 'S:7:1:19:101:n:1'],
     ['OK:2', 'U:1:9', 'S:1:0:19:100:n:0', 'K:1:0:1:0', 'U:1:1', 'S:2:0:19:100:n:1', 'O:0:2', 'S:3:0:24:100:n:0', 'K:0:0:1:1', 'S:4:0:24:100:n:0', 'OK:1', 'K:0:0:1:2', 'S:5:0:24:100:n:0', 'U:0:7'],
-    # leading signatures are orphaned packets now, and the packet after them goes with them (groupby read-ahead); an opaque one first: just skipped
+    # the orphan repair: marker / literal packets and stray signatures in front of, between and after keys, between components, next to an
+    # unknown-version primary key; leading signatures: all set aside, nothing else is lost
+    ['X:1', 'K:1:1:1:0', 'U:1:1', 'S:1:0:19:100:n:1', 'X:2', 'S:2:3:16:100:n:0', 'K:1:1:1:1', 'U:1:2', 'S:3:1:19:100:n:1', 'X:3'],
+    ['K:1:1:1:0', 'X:1', 'K:1:1:1:1', 'U:1:2'],
+    ['X:2', 'T', 'S:1:0:19:100:n:0', 'O:1:1', 'K:1:0:1:0', 'S:2:0:31:100:n:0', 'X:3', 'U:1:1', 'S:3:0:19:100:n:1', 'X:4', 'S:4:0:19:101:n:1', 'K:0:0:1:1', 'S:5:0:24:100:n:0', 'X:5',
+     'K:0:0:0:10', 'S:6:0:24:100:n:0'],
+    ['K:1:1:1:0', 'U:1:1', 'OK:1', 'X:1', 'U:1:2', 'X:2', 'K:1:1:1:1', 'U:1:3', 'X:3', 'OK:2', 'U:1:4', 'X:4', 'S:1:0:19:100:n:0'],
+    ['S:1:0:19:100:n:0', 'X:1', 'S:2:0:19:100:n:0', 'U:1:9'],
+    # leading signatures (before the orphan repair the packet after them went with them: groupby read-ahead); an opaque one first: just skipped
     ['S:1:0:19:100:n:0', 'K:1:1:1:0', 'K:1:1:1:1', 'U:1:1', 'S:2:1:19:100:n:1'],
     ['S:1:0:19:100:n:0', 'S:2:0:16:100:n:0', 'T', 'K:1:1:1:0', 'S:3:0:31:100:n:0', 'U:1:7', 'S:4:0:19:100:n:0', 'K:1:1:1:1', 'U:1:1', 'S:5:1:19:100:n:1'],
     ['O:1:1', 'S:1:0:19:100:n:0', 'K:1:1:1:1', 'U:1:1', 'S:2:1:19:100:n:1'],
@@ -599,6 +665,35 @@ def regression_unknown_primary(ctx, w, d):
                 ctx.broken.append('regression %s: the model of PGPKey.parse before repair bf7dbf5 does not differ from the repaired one' % name)
             if got != new or got == old:
                 ctx.fail(suite, 'user ids / subkeys after a primary key of unknown version are given to the key before it (or a leading signature raises)',
+                         dict(case, got=got, model=new, before_repair=old))
+        except Exception as ex:
+            from .common import DriverError
+            if isinstance(ex, DriverError):
+                raise
+            ctx.fail(suite, 'exception while examining the imported key: %s: %s' % (type(ex).__name__, str(ex)[:120]), case)
+
+
+def regression_orphans(ctx, w, d):
+    """the orphan repair (witnesses of Props/C14.v C14_stray_packet_pre_orphanfix_refuted / C14_leading_signature_orphaned): the real code must follow
+    the repaired model, not the model of the loop that was left and restarted"""
+    suite = 'regression'
+    for name, tt in (('stray-between-keys', ['K:1:1:1:0', 'U:1:1', 'X:1', 'K:1:1:1:1', 'U:1:2']), ('stray-first', ['X:1', 'K:1:1:1:0', 'U:1:1']),
+                     ('literal-between-keys', ['K:1:1:1:0', 'U:1:1', 'X:2', 'S:1:0:16:100:n:0', 'K:1:1:1:1', 'U:1:2']),
+                     ('signature-first', ['S:1:0:19:100:n:0', 'K:1:1:1:0', 'K:1:1:1:1', 'U:1:3']), ('signature-first-one-key', ['S:1:0:19:100:n:0', 'K:1:1:1:0', 'U:1:3'])):
+        case = {'suite': suite, 'tokens': tt}
+        ctx.case(suite, name, sample={'tokens': tt})
+        try:
+            blob = b''.join(w.bytes_of(t) for t in tt)
+            with warnings.catch_warnings():
+                warnings.simplefilter('ignore')
+                r = outcome(w.pgpy.PGPKey.from_blob, blob)
+            got = ('ERR:' + r[1]) if r[0] == 'raise' else ' '.join(w.key_s(k) for k in r[1][1].values())
+            old = d.call('import_orph', *tt)
+            new = ' '.join(m.split('|')[0] for m in d.call('import', *tt).split(' '))
+            if new == old:
+                ctx.broken.append('regression %s: the model of PGPKey.parse before the orphan repair does not differ from the repaired one' % name)
+            if got != new or got == old:
+                ctx.fail(suite, 'a packet that is no part of a key makes the parse lose the packet after it (a key vanishes / its user id goes to the key before / TypeError)',
                          dict(case, got=got, model=new, before_repair=old))
         except Exception as ex:
             from .common import DriverError
